@@ -88,4 +88,4 @@ Definition tags20 (s s' : s20) (o : line) (r : list bytes) : list bytes :=
   else [op].
 
 Definition suite20 : suite :=
-  {| St := s20; init := init20; step := step20; oracle := oracle20; tags := tags20 |}.
+  {| St := s20; init := init20; step := step20; oracle := oracle20; tags := tags20; absorb := fun s _ _ => s |}.
